@@ -335,6 +335,17 @@ struct HNum {
 struct HOpt {
     x_one: Option<String>,
 }
+/// A member that is left out when empty: which headers a value of this type declares
+/// varies from one response to the next.
+#[derive(Serialize, JsonSchema)]
+struct HSkip {
+    x_one: String,
+    #[serde(rename = "etag", skip_serializing_if = "String::is_empty")]
+    tag: String,
+    #[serde(rename = "x-generation", skip_serializing_if = "String::is_empty")]
+    generation: String,
+    x_last: String,
+}
 #[derive(Serialize, JsonSchema)]
 struct HBadName {
     #[serde(rename = "bad name")]
@@ -368,7 +379,32 @@ fn decl_fields(d: &Decl) -> Vec<(&'static str, Option<String>)> {
         "hopt" => vec![("x_one", None)],
         "hbad" => vec![("bad name", v(0))],
         "horder" => vec![("zz", v(0)), ("aa", v(1)), ("Mm", v(2))],
+        "hskip" => {
+            // vals[1] decides which of the two optional members is present (empty = left out)
+            let (tag, gen) = skip_members(d);
+            let mut f = vec![("x_one", v(0))];
+            if !tag.is_empty() {
+                f.push(("etag", Some(tag)));
+            }
+            if !gen.is_empty() {
+                f.push(("x-generation", Some(gen)));
+            }
+            f.push(("x_last", v(2)));
+            f
+        }
         _ => unreachable!(),
+    }
+}
+
+/// The two optional members of `HSkip` for this case: both, one, the other or none,
+/// depending on the (generated) second value.
+fn skip_members(d: &Decl) -> (String, String) {
+    let v = d.vals[1].clone();
+    match v.len() % 4 {
+        0 => (v.clone(), String::new()),
+        1 => (String::new(), v.clone()),
+        2 => (v.clone(), v.clone()),
+        _ => (String::new(), String::new()),
     }
 }
 
@@ -395,6 +431,10 @@ fn with_headers<T: HttpCodedResponse>(body: T, d: &Decl, ops: &[Op]) -> Result<h
         "hopt" => go!(HOpt { x_one: Some(s(0)) }),
         "hbad" => go!(HBadName { a: s(0) }),
         "horder" => go!(HOrder { zz: s(0), aa: s(1), mm: s(2) }),
+        "hskip" => {
+            let (tag, generation) = skip_members(d);
+            go!(HSkip { x_one: s(0), tag, generation, x_last: s(2) })
+        }
         _ => unreachable!(),
     }
 }
@@ -481,7 +521,7 @@ fn fmt_result(r: Result<hyper::Response<dropshot::Body>, HttpError>, json_body: 
 }
 
 const KINDS: &[&str] = &["ok", "created", "accepted", "deleted", "updated"];
-const SHAPES: &[&str] = &["none", "h1", "h2", "hcase", "hct", "hnum", "hopt", "hbad", "horder"];
+const SHAPES: &[&str] = &["none", "h1", "h2", "hcase", "hct", "hnum", "hopt", "hbad", "horder", "hskip"];
 
 fn tr_case(out: &mut Out, id: &mut u64, kind: &str, wrapped: bool, body: &BodyVal, d: &Decl, ops: &[Op]) {
     let json_kind = matches!(kind, "ok" | "created" | "accepted");
@@ -568,7 +608,8 @@ fn tr_stream(out: &mut Out, id: &mut u64, rng: &mut Rng, thorough: bool) {
             _ => BodyVal::Val(gen_value(rng, 3)),
         };
         // weight the shapes that succeed
-        let shape = match rng.below(14) {
+        let shape = match rng.below(17) {
+            14..=16 => "hskip",
             0 => "hnum",
             1 => "hopt",
             2 => "hbad",
